@@ -585,7 +585,7 @@ def one_symmetric(ctx, eng, rng, p, msg, in_coq, cases, meta):
         # ---- decrypt-side parameter variations on a valid ciphertext
         if in_coq:
             one_decrypt(ctx, eng, dict(dp, iv=None), ct, tag, 'any', True, cases, meta, 'no-iv')
-            if p['mode'] in (M.CBC, M.ECB):
+            if p['mode'] in (M.CBC, M.ECB) and ct:
                 other = P.ANSI_X923 if p['pad'] == P.PKCS5 else P.PKCS5
                 one_decrypt(ctx, eng, dict(dp, pad=other), ct, tag, 'any', True, cases, meta, 'other-padding')
                 one_decrypt(ctx, eng, dict(dp, pad=None), ct, tag, 'any', True, cases, meta, 'no-padding')
@@ -983,9 +983,10 @@ def run_rsa(ctx, eng, cases, meta, rsa_cache):
                                     c2 = dict(c2, key=c2['key'][:8])
                                 cases.append('KDec %s %s %s %s %s true' % (enc_params_term(dp), cp.byts(cts[:4]), outcome_term(o2), call_term(c2), cp.byts(b'')))
                                 meta.append(('rsa_decrypt', pj(dict(p, key=b'')), ln, o2))
-                        # wrong key must not decrypt to the message
+                        # wrong key must not decrypt to the message.  Only for messages of 16+ bytes: PKCS1v15 decryption
+                        # uses implicit rejection (a wrong key yields a pseudo-random message, which can be the empty one)
                         o3, v3, _ = call(eng.decrypt, A.RSA, others[size][1], ct, padding_method=pad, hashing_algorithm=h)
-                        if o3 == 'done' and v3 == msg:
+                        if o3 == 'done' and v3 == msg and len(msg) >= 16:
                             viol(ctx, 'decrypt', 'RSA decrypt with another key returned the message', dict(p, key=b''), {})
         # decrypt-side rejections
         for pad, h, keyk in [(P.PSS, None, 'good'), (None, None, 'good'), (P.OAEP, None, 'good'), (P.OAEP, H.MD2, 'good'), (P.OAEP, H.SHA_1, 'garbage'), (P.PKCS1v15, None, 'garbage')]:
@@ -1371,6 +1372,9 @@ def run(ctx):
         'entry) x message lengths 0, 1, block-1, block, block+1, 1000; quick tier = stratified sample (one key size '
         'per algorithm, message lengths rotated).  A case is distinct by (operation, parameter tuple, message length).')
     ctx.cov['trusted_extra'] = [
+        'Since fix: f8d262f f56c8fe 832c54a fd6e5cc the engine converts library refusals to KMIP errors; the model follows '
+        '(lib_sym_stage / lib_der_stage): the only non-KMIP exceptions left are RC4 named with CBC/ECB+padding or with GCM, '
+        'and RSA public_key.encrypt / private_key.decrypt refusals (observed, asym_ok).',
         'Section hypotheses of Crypto/*Proofs.v (NOT proved, named): the cipher law (library decrypt inverts library '
         'encrypt under the same algorithm/key/mode/IV/AAD and the (truncated) tag; ciphertext length = data length; GCM '
         'tag 16 bytes), urandom returns n bytes.  The mathematics of AES/3DES/.../SHA/HMAC/RSA (OpenSSL via '
